@@ -12,6 +12,10 @@ import RV.Base.Proto
   Terms of graphs: i<n> (IRI; i0 = rdf:first, i1 = rdf:rest, i2 = rdf:nil), l<n> (literal), b<n> (blank node).
     vl H s p o s p o …       -> true | false | nofuel   `isValidList(H)` on the graph, nothing serialized yet
     pre h1,h2,… s p o …      -> ok | bad                decidable `Pre`: may exactly these blank nodes go unlabelled?
+  HexTuples object columns (value, datatype, language); `*` = absent:
+    hext i IRI | hext b LABEL | hext l LEX DT|* LANG|*   -> V D L          the row the writer model produces
+    hextp V D L        -> i IRI | b LABEL | l LEX DT|* LANG|*   the reader model, normalised by the RDF 1.1
+                                                                 identification simple literal = xsd:string
 -/
 open RV RV.C03 RV.Proto
 
@@ -58,6 +62,20 @@ def triples? : List String → Option Graph
 def terms? (w : String) : Option (List Term) :=
   if w = "-" then some [] else (w.splitOn ",").mapM term?
 
+def optCps? (w : String) : Option (Option Str) :=
+  if w = "*" then some none else (cps? w).map some
+
+def showOptCps : Option Str → String
+  | some s => showCps s
+  | none => "*"
+
+def showHTerm : HTerm → String
+  | .iri i => "i " ++ showCps i
+  | .bnode b => "b " ++ showCps b
+  | .lit lex dt lang => "l " ++ showCps lex ++ " " ++ showOptCps dt ++ " " ++ showOptCps lang
+
+def showRow (r : S × S × S) : String := showCps r.1 ++ " " ++ showCps r.2.1 ++ " " ++ showCps r.2.2
+
 def step (s : Unit) : List String → Unit × String
   | ["ntenc", a] => match cps? a with
     | some x => (s, showCps (ntQuoteEncode x)) | none => (s, "bad-op")
@@ -75,6 +93,14 @@ def step (s : Unit) : List String → Unit × String
     | some k, some x, some ps =>
       (s, match plainChoice k x ps with | some t => "plain " ++ showCps t | none => "quoted")
     | _, _, _ => (s, "bad-op")
+  | ["hext", "i", a] => match cps? a with
+    | some x => (s, showRow (hextObj (.iri x))) | none => (s, "bad-op")
+  | ["hext", "b", a] => match cps? a with
+    | some x => (s, showRow (hextObj (.bnode x))) | none => (s, "bad-op")
+  | ["hext", "l", a, d, l] => match cps? a, optCps? d, optCps? l with
+    | some x, some d, some l => (s, showRow (hextObj (.lit x d l))) | _, _, _ => (s, "bad-op")
+  | ["hextp", v, d, l] => match cps? v, cps? d, cps? l with
+    | some v, some d, some l => (s, showHTerm (norm11 (hextParseObj (v, d, l)))) | _, _, _ => (s, "bad-op")
   | "vl" :: h :: rest => match term? h, triples? rest with
     | some h, some g =>
       (s, match isValidList g [] h with | some true => "true" | some false => "false" | none => "nofuel")
